@@ -113,6 +113,21 @@ func scenarios(w *bufio.Writer) {
 		fmt.Fprintf(w, "NOTE D3 view=%d missing=%d responded=%v\n", n.d.ViewNumber, len(n.d.MissingTransactions), n.d.ResponseSent())
 		endRun(w, mon, n)
 	}
+	// a transaction requested for the proposal of an abandoned view is not "requested" in the next view
+	{
+		mon := begin(4, -1, 0)
+		n := mkScenNode(mon, 2, mkVals(4), -1, w)
+		n.missing = map[uint64]bool{11: true, 12: true}
+		n.start(0)
+		n.recv(&Payload{dbft.PrepareRequestType, 1, 0, 1, prepReq{5000000, 9, []H{Tx(11).Hash()}}})
+		n.recv(&Payload{dbft.ChangeViewType, 1, 0, 0, chView{1, 0, 0}})
+		n.recv(&Payload{dbft.ChangeViewType, 1, 0, 3, chView{1, 0, 0}})
+		n.recv(&Payload{dbft.ChangeViewType, 1, 0, 1, chView{1, 0, 0}})
+		n.recv(&Payload{dbft.PrepareRequestType, 1, 1, 0, prepReq{7000000, 3, []H{Tx(12).Hash()}}})
+		n.op("X 11", func() { n.d.OnTransaction(Tx(11)) })
+		n.op("X 12", func() { n.d.OnTransaction(Tx(12)) })
+		endRun(w, mon, n)
+	}
 	// D9 (repaired): inboxes of skipped heights are dropped
 	{
 		mon := begin(4, -1, 0)
